@@ -156,3 +156,32 @@ fn bnd_load_cdp_p16() {
 fn bnd_load_cdp_skip_p32() {
     load_cdp_step(32, true);
 }
+
+// @harness id=bnd_collect_rdh_seen props=C14,C04 kind=bnd tier=quick bound=2headers fns=InputScanner::collect_rdh_seen_stats,Stats::rdh_seen,Stats::try_add_link,Stats::try_add_fee_id stubs=flume::Sender::send
+// Per visited header: the RDH count grows by one, its link is reported iff not seen before, its FEE id is
+// reported iff not seen before - independently of each other (two headers with arbitrary link / FEE id).
+#[kani::proof]
+#[kani::stub(flume::Sender::send, stub_send)]
+#[kani::stub(alloc::fmt::format, stub_format)]
+#[kani::unwind(4)]
+fn bnd_collect_rdh_seen() {
+    let mut a = [0u8; 64];
+    let mut b = [0u8; 64];
+    a[12] = kani::any();
+    b[12] = kani::any();
+    a[2] = kani::any();
+    a[3] = kani::any();
+    b[2] = kani::any();
+    b[3] = kani::any();
+    let ra = RdhCru::from_buf(&a[..]).unwrap();
+    let rb = RdhCru::from_buf(&b[..]).unwrap();
+    let mut sc = scanner_over([0u8; NBUF], NBUF, 64, None, false, true);
+    sc.collect_rdh_seen_stats(&ra);
+    assert!(unsafe { SENT_LINKS } == 1 && unsafe { LAST_LINK } == a[12], "[C14] the first header's link is reported");
+    assert!(unsafe { SENT_FEES } == 1 && unsafe { LAST_FEE } == s_fee_id(&a), "[C14] the first header's FEE id is reported");
+    sc.collect_rdh_seen_stats(&rb);
+    assert!(sc.stats.as_ref().unwrap().rdhs_seen == 2, "[C14] every visited header is counted once");
+    assert!(unsafe { SENT_LINKS } == 1 + (b[12] != a[12]) as u32, "[C14] a link is reported exactly when it was not seen before, whatever the FEE id");
+    assert!(unsafe { SENT_FEES } == 1 + (s_fee_id(&b) != s_fee_id(&a)) as u32, "[C14] a FEE id is reported exactly when it was not seen before, whatever the link");
+    core::mem::forget(sc);
+}
